@@ -69,3 +69,11 @@ pub fn assume(c: bool) {
 }
 #[derive(Debug)]
 pub struct AssumptionViolated;
+
+/// Structural harnesses over fully symbolic felts: keep products uninterpreted (see verif-uf).
+#[cfg(kani)]
+pub fn cheap_mul() {
+    verif_uf::set_cheap_mul(true)
+}
+#[cfg(not(kani))]
+pub fn cheap_mul() {}
